@@ -1001,6 +1001,17 @@ class Ctx(object):
         else:
             hs = self.hyps(inst)
             verdict, model, backend, reason = discharge(hs, g, timeout or self.run.timeout_ms, refute_first=(expect == 'refuted'))
+            if verdict == 'refuted' and expect != 'refuted' and self.qfacts and not os.environ.get('KVC_NO_SATURATE'):
+                # the counter-model satisfies the quantified hypotheses only at the index terms they were instantiated at: instantiate them over the index
+                # range of that model (and at the ends of every declared array) and try once more; adding instances of assumed facts is sound
+                extra = self._saturation_terms(model)
+                hs2 = self.hyps(list(inst) + extra)
+                if len(hs2) > len(hs):
+                    v2, m2, b2, r2 = discharge(hs2, g, timeout or self.run.timeout_ms)
+                    if v2 == 'proved':
+                        verdict, model, backend, reason = 'proved', None, b2 + ' (quantified facts instantiated over the index range of a spurious counter-model)', ''
+                    elif v2 == 'refuted':
+                        model = m2
             mj = model if verdict == 'refuted' else None
             ob = Obligation(name, kind, verdict, time.time() - t0, backend, path, mj, reason, where)
         ob.expect = expect
@@ -1012,6 +1023,25 @@ class Ctx(object):
         if assume_after:
             self.pc.append(g)
         return ob.verdict == 'proved'
+
+    def _saturation_terms(self, mj):
+        """index terms for a second instantiation round: 0 .. K-1 for the largest array extent K of the counter-model (at most 6), and the last two
+        positions of every symbolic array extent"""
+        K = 0
+        for v in (mj or {}).values():
+            if isinstance(v, dict) and isinstance(v.get('shape'), list):
+                for d in v['shape']:
+                    if isinstance(d, int):
+                        K = max(K, d)
+        out = list(range(0, min(K, 6)))
+        seen = set()
+        for decl in self.inputs:
+            for d in getattr(decl, 'shape', ()) or ():
+                d = _generic(d)
+                if isinstance(d, SV) and d.t.get_id() not in seen:
+                    seen.add(d.t.get_id())
+                    out += [d - 1, d - 2]
+        return out
 
     def concretise(self, model):
         out = {}
